@@ -1,6 +1,6 @@
 (* C19 — property theorems only. Statements are pinned by props/C19.json. *)
 From PV Require Import Lib.Base Cbor.Item Cbor.Dec.
-From PV Require Import C19.Model C19.Proofs C19.Fuel.
+From PV Require Import C19.Model C19.Proofs C19.Fuel C19.Base58 C19.Base58Proofs C19.Base58Byron.
 From PV Require C18.Model.
 Open Scope Z_scope.
 
@@ -86,13 +86,17 @@ Proof. exact skip_item_consumes. Qed.
 Theorem crc32_is_u32 : forall p, bytes_wf p -> 0 <= crc32 p < 2 ^ 32.
 Proof. intros p H. change (2 ^ 32) with 4294967296. apply crc32_range, H. Qed.
 
-(* PARTIAL (base58 crate is an oracle; its decoder has a fixed 132-byte buffer):
-   given decode (encode bs) = bs for |bs| <= 132, addresses whose encoding is at
-   most 132 bytes round-trip through base58, and nothing accepted from base58
-   has a mismatching checksum.  Longer addresses: known finding (see level_text). *)
-Theorem byron_base58_roundtrip_partial :
-  forall skip (enc : list Z -> list Z) (dec : list Z -> option (list Z)),
-  (forall bs, bytes_wf bs -> len bs <= 132 -> dec (enc bs) = Some bs) ->
+(* ---- base58 (crate base58 0.2.0), executable Gallina: Base58.v ---- *)
+(* decode . encode = id for every byte string of at most 132 bytes (the crate's
+   decoder buffer; beyond it the crate itself fails: known finding) *)
+Theorem base58_roundtrip : forall bs, bytes_wf bs -> C18.Bech32.blen bs <= 132 ->
+  b58_decode (b58_encode bs) = Ok bs.
+Proof. exact b58_roundtrip_proof. Qed.
+
+(* generic form kept: any base58 codec with that premise *)
+Theorem byron_base58_roundtrip_generic :
+  forall skip (enc : list Z -> list Z) (dec : list Z -> outcome (list Z)),
+  (forall bs, bytes_wf bs -> len bs <= 132 -> dec (enc bs) = Ok bs) ->
   forall p, bytes_wf p -> len (byron_to_vec (from_decoded p)) <= 132 ->
   from_base58 skip dec (to_base58 enc (from_decoded p)) = Ok (from_decoded p).
 Proof.
@@ -101,8 +105,15 @@ Proof.
   assert (len p <= len (byron_to_vec (from_decoded p))); [|lia].
   unfold byron_to_vec, Cbor.Api.e_bytes, from_decoded. cbn [fst snd]. unfold len. rewrite !app_length. lia.
 Qed.
+
+(* CLOSED: addresses whose encoding has at most 132 bytes round-trip through base58 *)
+Theorem byron_base58_roundtrip : forall skip p, bytes_wf p ->
+  len (byron_to_vec (from_decoded p)) <= 132 ->
+  from_base58 skip b58_decode (to_base58 b58_encode (from_decoded p)) = Ok (from_decoded p).
+Proof. exact byron_base58_closed. Qed.
+
 Theorem byron_base58_accepted_implies_crc :
-  forall skip (dec : list Z -> option (list Z)) s a, from_base58 skip dec s = Ok a -> crc32 (fst a) = snd a.
+  forall skip (dec : list Z -> outcome (list Z)) s a, from_base58 skip dec s = Ok a -> crc32 (fst a) = snd a.
 Proof. exact base58_ok_crc. Qed.
 
 (* ---- the tree before commit "fix: reject Byron addresses whose CRC32 ..." ---- *)
@@ -122,6 +133,12 @@ Qed.
 Example crc32_check_value :
   crc32 [49;50;51;52;53;54;55;56;57] = 3421780262 /\ crc32 vector3_payload = 3386265179.
 Proof. split; vm_compute; reflexivity. Qed.
+(* base58 crate tests, and the decoder's panic: more leading '1' than leading zero bytes *)
+Example base58_vectors :
+  b58_decode [52;107;56] = Ok [49;49] /\ b58_encode [49;49] = [52;107;56] /\
+  b58_encode [0;0;1] = [49;49;50] /\
+  b58_decode (repeat 49 133) = Panic P_SUB /\ b58_decode [48] = Err E_B58.
+Proof. repeat split; vm_compute; reflexivity. Qed.
 Example vector3_now_rejected_and_good_accepted :
   from_bytes skip_item vector3_bad = Err E_BYRON_CBOR /\
   from_bytes skip_item ([130;216;24;88;33] ++ vector3_payload ++ [26;201;214;78;91]) = Ok (from_decoded vector3_payload) /\
